@@ -1,0 +1,368 @@
+//! Verification support (cargo feature `verif`, off by default).
+//!
+//! Everything in here is either a thin indirection to callbacks installed by an
+//! external harness, or a read-only facade that exposes otherwise private
+//! functionality as plain data.  With no callbacks installed every hook is a
+//! no-op and n2 behaves exactly as without the feature.
+
+use crate::{
+    db, densemap::Index, graph, graph::Build, graph::BuildId, load, progress::Progress,
+    task::TaskResult, work::BuildState, work::StateCounts,
+};
+use std::path::Path;
+use std::sync::OnceLock;
+
+pub use crate::process::Termination;
+
+/// Events seen by the progress reporter, in plain data.
+#[derive(Debug)]
+pub enum ProgressEvent {
+    /// Counts in the order want, ready, queued, running, done, failed.
+    Update([usize; 6]),
+    TaskStarted { build: usize },
+    TaskOutput { build: usize, line: Vec<u8> },
+    TaskFinished { build: usize, termination: Termination, output: Vec<u8> },
+    Log(String),
+}
+
+/// Callbacks a harness can install.  All have no-op defaults.
+pub trait Hooks: Send + Sync {
+    /// A task::Runner was created (i.e. a Work::run begins).
+    fn run_begin(&self, _parallelism: usize) {}
+    /// Runner::start was called for a build (main thread).
+    fn start(&self, _build: usize, _cmdline: &str) {}
+    /// Runner::wait is about to block (main thread).
+    fn wait(&self, _running: usize) {}
+    /// Called at the top of run_command (task thread).  Some(..) replaces the
+    /// subprocess.
+    fn run_command(
+        &self,
+        _cmdline: &str,
+        _output: &mut dyn FnMut(&[u8]),
+    ) -> Option<anyhow::Result<Termination>> {
+        None
+    }
+    /// Chooses the order in which newly ready dependents are visited.
+    fn order(&self, ids: Vec<usize>) -> Vec<usize> {
+        ids
+    }
+    /// Called before each write to the db file.  Some(..) replaces the write.
+    fn db_write(
+        &self,
+        _w: &mut dyn std::io::Write,
+        _bytes: &[u8],
+    ) -> Option<std::io::Result<()>> {
+        None
+    }
+    /// When true, progress is reported through `progress` instead of the console.
+    fn capture_progress(&self) -> bool {
+        false
+    }
+    fn progress(&self, _ev: ProgressEvent) {}
+    /// Terminal width override: Some(x) makes terminal::get_cols return x.
+    fn cols(&self) -> Option<Option<usize>> {
+        None
+    }
+}
+
+static HOOKS: OnceLock<Box<dyn Hooks>> = OnceLock::new();
+
+/// Installs the process-wide callbacks.  Can be done once.
+pub fn install(hooks: Box<dyn Hooks>) {
+    if HOOKS.set(hooks).is_err() {
+        panic!("verif hooks already installed");
+    }
+}
+
+fn hooks() -> Option<&'static dyn Hooks> {
+    HOOKS.get().map(|b| &**b)
+}
+
+pub(crate) fn on_run_begin(parallelism: usize) {
+    if let Some(h) = hooks() {
+        h.run_begin(parallelism);
+    }
+}
+
+pub(crate) fn on_start(id: BuildId, build: &Build) {
+    if let Some(h) = hooks() {
+        h.start(id.index(), build.cmdline.as_deref().unwrap_or(""));
+    }
+}
+
+pub(crate) fn on_wait(running: usize) {
+    if let Some(h) = hooks() {
+        h.wait(running);
+    }
+}
+
+pub(crate) fn run_command(
+    cmdline: &str,
+    output: &mut dyn FnMut(&[u8]),
+) -> Option<anyhow::Result<Termination>> {
+    hooks()?.run_command(cmdline, output)
+}
+
+pub(crate) fn order(ids: std::collections::HashSet<BuildId>) -> Vec<BuildId> {
+    let mut v: Vec<usize> = ids.into_iter().map(|id| id.index()).collect();
+    // Without a harness keep an arbitrary but fixed order.
+    v.sort();
+    if let Some(h) = hooks() {
+        v = h.order(v);
+    }
+    v.into_iter().map(BuildId::from).collect()
+}
+
+pub(crate) fn hooked() -> bool {
+    hooks().is_some()
+}
+
+/// Writes `bytes` to the db file unless the harness replaces the write.
+pub(crate) fn db_write_all(w: &mut dyn std::io::Write, bytes: &[u8]) -> std::io::Result<()> {
+    match hooks().and_then(|h| h.db_write(w, bytes)) {
+        Some(result) => result,
+        None => w.write_all(bytes),
+    }
+}
+
+pub(crate) fn cols() -> Option<Option<usize>> {
+    hooks()?.cols()
+}
+
+/// Progress implementation forwarding to the harness.
+pub(crate) struct ForwardProgress;
+static FORWARD: ForwardProgress = ForwardProgress;
+
+pub(crate) fn progress_override() -> Option<&'static dyn Progress> {
+    match hooks() {
+        Some(h) if h.capture_progress() => Some(&FORWARD),
+        _ => None,
+    }
+}
+
+fn counts_array(counts: &StateCounts) -> [usize; 6] {
+    [
+        counts.get(BuildState::Want),
+        counts.get(BuildState::Ready),
+        counts.get(BuildState::Queued),
+        counts.get(BuildState::Running),
+        counts.get(BuildState::Done),
+        counts.get(BuildState::Failed),
+    ]
+}
+
+impl Progress for ForwardProgress {
+    fn update(&self, counts: &StateCounts) {
+        if let Some(h) = hooks() {
+            h.progress(ProgressEvent::Update(counts_array(counts)));
+        }
+    }
+    fn task_started(&self, id: BuildId, _build: &Build) {
+        if let Some(h) = hooks() {
+            h.progress(ProgressEvent::TaskStarted { build: id.index() });
+        }
+    }
+    fn task_output(&self, id: BuildId, line: Vec<u8>) {
+        if let Some(h) = hooks() {
+            h.progress(ProgressEvent::TaskOutput {
+                build: id.index(),
+                line,
+            });
+        }
+    }
+    fn task_finished(&self, id: BuildId, _build: &Build, result: &TaskResult) {
+        if let Some(h) = hooks() {
+            h.progress(ProgressEvent::TaskFinished {
+                build: id.index(),
+                termination: match result.termination {
+                    Termination::Success => Termination::Success,
+                    Termination::Interrupted => Termination::Interrupted,
+                    Termination::Failure => Termination::Failure,
+                },
+                output: result.output.clone(),
+            });
+        }
+    }
+    fn log(&self, msg: &str) {
+        if let Some(h) = hooks() {
+            h.progress(ProgressEvent::Log(msg.to_owned()));
+        }
+    }
+}
+
+// ---------------------------------------------------------------------------
+// Facades: private functionality as plain data.
+
+/// One build statement of a loaded graph.
+#[derive(Debug, Clone, PartialEq, Eq)]
+pub struct BuildDump {
+    pub location: String,
+    pub outs: Vec<String>,
+    /// Raw `explicit` count of the output list (may exceed outs.len() if
+    /// the graph is inconsistent; that is what the dump is for).
+    pub explicit_outs: usize,
+    pub ins: Vec<String>,
+    pub explicit_ins: usize,
+    pub implicit_ins: usize,
+    pub order_only_ins: usize,
+    pub discovered_ins: Vec<String>,
+    pub cmdline: Option<String>,
+    pub desc: Option<String>,
+    pub depfile: Option<String>,
+    pub parse_showincludes: bool,
+    pub rspfile: Option<(String, String)>,
+    pub pool: Option<String>,
+    pub hide_success: bool,
+    pub hide_progress: bool,
+}
+
+#[derive(Debug, Clone, PartialEq, Eq, Default)]
+pub struct GraphDump {
+    pub builds: Vec<BuildDump>,
+    /// (name, producing build, dependents) for every file in id order.
+    pub files: Vec<(String, Option<usize>, Vec<usize>)>,
+    pub defaults: Vec<String>,
+    pub pools: Vec<(String, usize)>,
+    pub builddir: Option<String>,
+}
+
+fn names(g: &graph::Graph, ids: &[graph::FileId]) -> Vec<String> {
+    ids.iter().map(|&id| g.file(id).name.clone()).collect()
+}
+
+fn dump_graph(g: &graph::Graph) -> GraphDump {
+    let mut d = GraphDump::default();
+    let n = g.builds.next_id().index();
+    for i in 0..n {
+        let b = &g.builds[BuildId::from(i)];
+        d.builds.push(BuildDump {
+            location: format!("{}", b.location),
+            outs: names(g, &b.outs.ids),
+            explicit_outs: b.outs.explicit,
+            ins: names(g, &b.ins.ids),
+            explicit_ins: b.ins.explicit,
+            implicit_ins: b.ins.implicit,
+            order_only_ins: b.ins.order_only,
+            discovered_ins: names(g, b.discovered_ins()),
+            cmdline: b.cmdline.clone(),
+            desc: b.desc.clone(),
+            depfile: b.depfile.clone(),
+            parse_showincludes: b.parse_showincludes,
+            rspfile: b.rspfile.as_ref().map(|r| {
+                (
+                    r.path.to_string_lossy().into_owned(),
+                    r.content.clone(),
+                )
+            }),
+            pool: b.pool.clone(),
+            hide_success: b.hide_success,
+            hide_progress: b.hide_progress,
+        });
+    }
+    for id in g.files.all_ids() {
+        let f = g.file(id);
+        d.files.push((
+            f.name.clone(),
+            f.input.map(|b| b.index()),
+            f.dependents.iter().map(|b| b.index()).collect(),
+        ));
+    }
+    d
+}
+
+/// Loads a manifest given as bytes (without trailing NUL); `include` and
+/// `subninja` read real files relative to the current directory.
+pub fn load_bytes(name: &str, content: &[u8]) -> anyhow::Result<GraphDump> {
+    let (g, defaults, pools, builddir) = load::verif_parse(name, content.to_vec())?;
+    let mut d = dump_graph(&g);
+    d.defaults = names(&g, &defaults);
+    d.pools = pools;
+    d.builddir = builddir;
+    Ok(d)
+}
+
+/// Loads manifest and db from disk exactly like a build does, and dumps the
+/// graph plus the recorded hash of every build.
+pub fn load_disk(build_filename: &str) -> anyhow::Result<(GraphDump, Vec<Option<u64>>)> {
+    let state = load::read(build_filename)?;
+    let mut d = dump_graph(&state.graph);
+    d.defaults = names(&state.graph, &state.default);
+    d.pools = state.pools.iter().cloned().collect();
+    let n = state.graph.builds.next_id().index();
+    let hashes = (0..n)
+        .map(|i| state.hashes.get(BuildId::from(i)).map(|h| h.0))
+        .collect();
+    Ok((d, hashes))
+}
+
+/// A graph plus an opened db, for driving db reads and writes directly.
+pub struct DbSession {
+    graph: graph::Graph,
+    hashes: graph::Hashes,
+    writer: db::Writer,
+}
+
+impl DbSession {
+    /// Parses `manifest` and opens (or creates) the db at `db_path` against it.
+    pub fn open(manifest: &[u8], db_path: &Path) -> anyhow::Result<DbSession> {
+        let (mut graph, _, _, _) = load::verif_parse("build.ninja", manifest.to_vec())?;
+        let mut hashes = graph::Hashes::default();
+        let writer = db::open(db_path, &mut graph, &mut hashes)?;
+        Ok(DbSession {
+            graph,
+            hashes,
+            writer,
+        })
+    }
+
+    pub fn dump(&self) -> GraphDump {
+        dump_graph(&self.graph)
+    }
+
+    /// (hash, discovered deps) as loaded from the db, per build.
+    pub fn loaded(&self) -> Vec<(Option<u64>, Vec<String>)> {
+        let n = self.graph.builds.next_id().index();
+        (0..n)
+            .map(|i| {
+                let id = BuildId::from(i);
+                (
+                    self.hashes.get(id).map(|h| h.0),
+                    names(&self.graph, self.graph.builds[id].discovered_ins()),
+                )
+            })
+            .collect()
+    }
+
+    /// Sets the discovered deps of `build` to `deps` (canonical names) and
+    /// appends a record for it.
+    pub fn write(&mut self, build: usize, deps: &[String], hash: u64) -> std::io::Result<()> {
+        let id = BuildId::from(build);
+        let ids = deps
+            .iter()
+            .map(|d| self.graph.files.id_from_canonical(d.clone()))
+            .collect();
+        self.graph.builds[id].set_discovered_ins(ids);
+        self.writer
+            .write_build(&self.graph, id, crate::hash::BuildHash(hash))
+    }
+}
+
+/// Parses depfile content (without trailing NUL) into (target, deps) entries.
+pub fn parse_depfile(content: &[u8]) -> Result<Vec<(String, Vec<String>)>, String> {
+    let mut buf = content.to_vec();
+    buf.push(0);
+    let mut scanner = crate::scanner::Scanner::new(&buf);
+    match crate::depfile::parse(&mut scanner) {
+        Ok(m) => Ok(m
+            .iter()
+            .map(|(k, v)| (k.to_string(), v.iter().map(|s| s.to_string()).collect()))
+            .collect()),
+        Err(err) => Err(scanner.format_parse_error(Path::new("depfile"), err)),
+    }
+}
+
+pub use crate::progress_fancy::{
+    verif_print_progress, verif_progress_bar, verif_task_message, verif_truncate,
+};
+pub use crate::run::{verif_build, BuildOpts};
+pub use crate::task::{verif_extract_showincludes, verif_read_depfile};
